@@ -1064,3 +1064,44 @@ def recursive_type_programs(rng, n):
         a.op("STOP")
         out.append(a.assemble())
     return out
+
+
+def trampoline_programs(rng, n):
+    """one instruction reached by several paths in different machine states: a shared `JUMPDEST; JUMP` (or JUMPI / POP /
+    SSTORE) trampoline entered after JUMPI forks with different stacks, so that different errors (bad targets of
+    different kinds, stack underflow) or an error and a success arise at the SAME offset."""
+    out = []
+    for _ in range(n):
+        a = Asm()
+        k = rng.randrange(2, 5)          # entry paths
+        for i in range(k - 1):
+            a.op("CALLDATASIZE").push_label("E%d" % (i + 1)).op("JUMPI")
+            _tramp_entry(a, rng, i)
+        _tramp_entry(a, rng, k - 1, last=True)
+        for i in range(1, k):
+            a.label("E%d" % i)
+            _tramp_entry(a, rng, 100 + i, last=True)
+        a.label("T")
+        a.op(rng.choice(["JUMP", "JUMP", "JUMP", "POP", "JUMPI"]))
+        a.op("STOP")
+        a.label("OK")
+        a.push(1).push(0).op("SSTORE").op("STOP")
+        out.append(a.assemble())
+    return out
+
+
+def _tramp_entry(a, rng, i, last=False):
+    r = rng.randrange(6)
+    if r == 0:
+        pass                                             # empty stack: underflow at the trampoline
+    elif r == 1:
+        a.push(rng.choice([0xff, 0xffff, 2 ** 32 + 5, 2 ** 64 + 7, 2 ** 256 - 1]))     # out of range
+    elif r == 2:
+        a.push(rng.choice([1, 2, 3]))                    # not a JUMPDEST
+    elif r == 3:
+        a.push_label("OK")                               # a valid target
+    elif r == 4:
+        a.push(0).push(rng.choice([0xff, 1]))            # two operands (matters when the trampoline is a JUMPI)
+    else:
+        a.push_label("OK").push(1)
+    a.push_label("T").op("JUMP")
